@@ -143,12 +143,6 @@ pub proof fn lemma_le_bytes64_bit(x: u64, j: int)
         (((((x >> ((8 * i) as u64)) as u8) >> k) & 1u8 == 1u8) == ((x >> jj) & 1u64 == 1u64))) by (bit_vector);
     assert(le_bytes64(x)[j / 8] == (x >> ((8 * i) as u64)) as u8);
 }
-pub open spec fn le128(b: Seq<u8>) -> u128 {
-    (b[0] as u128) | (b[1] as u128) << 8 | (b[2] as u128) << 16 | (b[3] as u128) << 24
-    | (b[4] as u128) << 32 | (b[5] as u128) << 40 | (b[6] as u128) << 48 | (b[7] as u128) << 56
-    | (b[8] as u128) << 64 | (b[9] as u128) << 72 | (b[10] as u128) << 80 | (b[11] as u128) << 88
-    | (b[12] as u128) << 96 | (b[13] as u128) << 104 | (b[14] as u128) << 112 | (b[15] as u128) << 120
-}
 proof fn lemma_le128_bit_raw(b0: u8, b1: u8, b2: u8, b3: u8, b4: u8, b5: u8, b6: u8, b7: u8,
                          b8: u8, b9: u8, b10: u8, b11: u8, b12: u8, b13: u8, b14: u8, b15: u8, j: u128)
     requires j < 128
